@@ -12,6 +12,7 @@ from mc.report import Report, exc_sig
 
 import copy
 import io
+import random
 import contextlib
 
 from bitarray import bitarray
@@ -358,6 +359,7 @@ class Tracker(explore.System):
         name, ts = ev
         viol = []
         SEAMS.tok = self.tok
+        random.seed(20230917)  # the embedding application seeds the global generator whenever it likes: ids must stay fresh
         burst = received(name)
         for r in [self.rec_a, self.rec_b] + list(self.slot_rec.values()):
             r.events = []
